@@ -13,7 +13,7 @@ of times by some Pauli operator on the qubits), and from there — `Proofs/Lat2D
 the same members).  A location with odd X-parity is probed by a single `Z`, one with odd
 Z-parity by a single `X`.  Generic in the lattice.
 -/
-import PanqecVerif.Proofs.Lat2DRankBridge
+import PanqecVerif.Proofs.Lat2DRankSubset
 import PanqecVerif.Proofs.LatCubic3DRank
 
 namespace Panqec.Cubic3D
@@ -116,20 +116,6 @@ theorem indepGenerators_of_opsIndep (l : Lattice) (hwf : l.WF) (B : List Coord) 
     · simp only [opAntiCount_probeX]
       rw [sum_indicator_eq_countP]; exact hq
 
-/-- probe-form independence only depends on the set of locations -/
-theorem indepGenerators_mono {l : Lattice} {B B' : List Coord} (h : ∀ s ∈ B', s ∈ B)
-    (hind : IndepGenerators l B) : IndepGenerators l B' :=
-  fun T hnd hsub hne => hind T hnd (fun t ht => h t (hsub t ht)) hne
-
-/-- the members of a duplicate-free `B ⊆ stabs`, in the order of `stabs`: same length -/
-theorem length_filter_mem {stabs B : List Coord} (hs : stabs.Nodup) (hB : B.Nodup)
-    (hsub : ∀ s ∈ B, s ∈ stabs) : (stabs.filter fun s => decide (s ∈ B)).length = B.length := by
-  apply List.Perm.length_eq
-  apply (List.perm_ext_iff_of_nodup (hs.sublist List.filter_sublist) hB).mpr
-  intro a
-  simp only [List.mem_filter, decide_eq_true_eq]
-  exact ⟨fun h => h.2, fun h => ⟨hsub a h, h⟩⟩
-
 /-- the rank clause on the assembled parity-check matrix from a parity-form independent family
     of `n − k` distinct stabilizer locations (in any order) -/
 theorem hasRank_of_opsIndep (l : Lattice) (hwf : l.WF) (hcp : l.CommPair) (B : List Coord)
@@ -137,15 +123,12 @@ theorem hasRank_of_opsIndep (l : Lattice) (hwf : l.WF) (hcp : l.CommPair) (B : L
     (hcount : B.length = l.toCodeData.n - l.toCodeData.k)
     (hind : OpsIndep (B.map l.getStab)) :
     HasRank (2 * l.qubits.length) l.rowsH (l.qubits.length - l.logX.length) := by
-  apply hasRank_of_indepGenerators l hwf hcp (l.stabs.filter fun s => decide (s ∈ B))
-    List.filter_sublist
-  · apply indepGenerators_mono _ (indepGenerators_of_opsIndep l hwf B hB hsub hind)
-    intro s hs
-    simpa using (List.mem_filter.mp hs).2
-  · rw [length_filter_mem hwf.stabs_nodup hB hsub, hcount]
-    change l.qubits.length - l.logX.length + l.logX.length = l.qubits.length
-    have : l.logX.length ≤ l.qubits.length := (Lattice.commPairL_rows hwf hcp).k_le
-    omega
+  apply hasRank_of_indepGenerators_subset l hwf hcp B hB hsub
+    (indepGenerators_of_opsIndep l hwf B hB hsub hind)
+  rw [hcount]
+  change l.qubits.length - l.logX.length + l.logX.length = l.qubits.length
+  have : l.logX.length ≤ l.qubits.length := (Lattice.commPairL_rows hwf hcp).k_le
+  omega
 
 /-- a well-formed lattice model with the operator-level commutation / pairing clauses and a
     parity-form independent family of `n − k` distinct generators assembles into a valid
